@@ -202,7 +202,17 @@ impl<'a> B<'a> {
                 _ => call("to_bool", src),
             },
             Ty::Arr => call("array", src),
-            Ty::Obj => call("object", src),
+            // results typed as objects with known (required) fields exercise the default `{}`
+            Ty::Obj => match self.c.below(4) {
+                0 => call("parse_url", src),
+                1 => E::Call {
+                    f: "parse_regex".to_string(),
+                    bang: false,
+                    args: vec![(None, src), (None, E::Lit(TV::Regex("(?P<num>[0-9]+)(?P<rest>.*)".to_string())))],
+                    closure: None,
+                },
+                _ => call("object", src),
+            },
             Ty::Null | Ty::Any => {
                 if self.c.chance(1, 2) {
                     call("parse_json", E::Ev(self.ev_path()))
